@@ -893,14 +893,19 @@ Section Engine.
   (** ** [StepsRunner.run_failure_step_group] *)
   Definition run_failure (group : string) (s : st) : R :=
     match run_group group true s with
-    | (ORaise (RSig sg), s1) => (ORaise (RSig sg), s1)     (* except Stop: raise *)
-    | (ORaise (RExn _ _ _), s1) | (OHandled _, s1) => (OOk, s1)   (* swallowed *)
-    | r => r
+    | (ORaise (RSig (SCall _)), s1) | (ORaise (RSig (SJump _)), s1)   (* not Stops: plain Exceptions here *)
+    | (ORaise (RExn _ _ _), s1) | (OHandled _, s1) => (OOk, s1)   (* except Exception: swallowed *)
+    | r => r                                                (* except Stop: raise; OOk; OUnsup *)
     end.
 
   (** ** [StepsRunner.run_step_groups] *)
   Definition is_signal (o : outcome) : bool :=
     match o with ORaise (RSig _) => true | _ => false end.
+
+  (** what [except Exception] catches here: ordinary errors, and HandledError (which in fact never
+      leaves a step: [Step.run_conditional_decorators] unwraps it) *)
+  Definition is_error (o : outcome) : bool :=
+    match o with ORaise (RExn _ _ _) | OHandled _ => true | _ => false end.
 
   Definition groups_body (groups : list val) (success failure : option string) (s : st) : R :=
     match groups with
@@ -915,23 +920,22 @@ Section Engine.
                         | Some sg => match sg with "" => (OOk, s1) | _ => run_group sg false s1 end
                         | None => (OOk, s1)
                         end) in
-            match main with
-            | (ORaise (RExn n m e), s1) =>
-                match failure with
-                | Some fg =>
-                    match fg with
-                    | "" => main
-                    | _ =>
-                        match run_failure fg s1 with
-                        | (ORaise (RSig SStopStepGroup), s2) => (OOk, s2)      (* do_raise = False *)
-                        | (OOk, s2) => (ORaise (RExn n m e), s2)             (* the original *)
-                        | r => r        (* Stop / StopPipeline from the handler, or OUnsup *)
-                        end
-                    end
-                | None => main
-                end
-            | _ => main
-            end
+            let (o, s1) := main in
+            if is_error o then                                  (* except Exception: *)
+              match failure with
+              | Some fg =>
+                  match fg with
+                  | "" => main
+                  | _ =>
+                      match run_failure fg s1 with
+                      | (ORaise (RSig SStopStepGroup), s2) => (OOk, s2)      (* do_raise = False *)
+                      | (OOk, s2) => (o, s2)                               (* the original *)
+                      | r => r        (* Stop / StopPipeline from the handler, or OUnsup *)
+                      end
+                  end
+              | None => main
+              end
+            else main
         end
     end.
 End Engine.
